@@ -587,6 +587,15 @@ def run(ctx):
             "%s: b_in=%d ndeg b_out=%d ndeg tan(rho)=%d permille" % (
                 len(only), len(big), all(f == ["ell_minor_round_trip"] for _, f in only),
                 worst["id"], worst["e_b_in"], worst["e_b_out"], worst["tanrho_pm"]))
+        # by the letter of the property (sizes up to 20 px, scales up to 60", any position inside the
+        # image) this is a violation; it is a limitation of the defect-correction algorithm with no
+        # minimal repair, recorded in known_findings.json and keyed on exactly this input class
+        for r, f in only:
+            if f == ["ell_minor_round_trip"]:
+                ctx.violation("conv fails=ell_minor_round_trip outside-linear-regime (semi-major[rad]*tan(rho) > 3e-4)",
+                              {"job": r["job"], "fails": f, "record": r})
+            else:
+                ctx.violation("conv strict fails=%s" % ",".join(f), {"job": r["job"], "fails": f, "record": r})
     ctx.notes["strict_minor_axis_rejections"] = len(only)
     ctx.notes["skipped_configurations"] = skipped
 
